@@ -33,6 +33,9 @@ static const CheckDef defs[] = {
         { "C03", "ref_aead", 8000, 200000, 100, 1500, "exploration", k_state_rule },
         { "C06", "ref_chain", 8000, 200000, 100, 1500, "exploration", k_state_rule },
         { "C08", "xvar", 4000, 80000, 100, 1500, "exploration", k_state_rule },
+        { "C09", "entry", 6000, 150000, 100, 1500, "exploration", k_state_rule },
+        { "C10", "sgl", 6000, 150000, 100, 1500, "exploration", k_state_rule },
+        { "C11", "keyprep", 6000, 150000, 100, 1500, "exploration", k_state_rule },
         { "C12", "reject", 20000, 400000, 100, 1500, "fault_enumeration", k_state_rule },
         { "C15", "reinit", 8000, 150000, 100, 1500, "exploration", k_state_rule },
         { "C16", "reattach", 8000, 150000, 100, 1500, "exploration", k_state_rule },
